@@ -199,8 +199,20 @@ pub fn gen_e(t: &mut Tape, sc: &Scope, ty: Ty, depth: usize) -> E {
             }
             _ => call(E::BuiltIn(["every", "some"][t.pick(2)].into()), vec![gen_e(t, sc, Ty::L, d), E::Lambda(vec![P::Req("q".into())], b(bin(Op::Gt, id("q"), gen_e(t, sc, Ty::N, 0))))]),
         },
-        Ty::S => match t.pick(9) {
+        Ty::S => match t.pick(10) {
             0 | 1 => leaf(t, sc, ty),
+            9 => {
+                // records built by count_by / group_by, observed in key order
+                let list = if t.chance(1, 2) { gen_e(t, sc, Ty::L, d) } else { E::List(vec![n(3.0), n(1.0), n(2.0), n(1.0), gen_e(t, sc, Ty::N, 0)]) };
+                let keyf = E::Lambda(vec![P::Req("q".into())], b(call(E::BuiltIn("to_string".into()), vec![id("q")])));
+                let rec = call(E::BuiltIn(["count_by", "group_by"][t.pick(2)].into()), vec![list, keyf]);
+                match t.pick(4) {
+                    0 => call(E::BuiltIn("to_string".into()), vec![rec]),
+                    1 => call(E::BuiltIn("join".into()), vec![call(E::BuiltIn("keys".into()), vec![rec]), E::Str(",".into())]),
+                    2 => call(E::BuiltIn("to_string".into()), vec![call(E::BuiltIn("entries".into()), vec![rec])]),
+                    _ => call(E::BuiltIn("to_string".into()), vec![call(E::BuiltIn("values".into()), vec![rec])]),
+                }
+            }
             2 => bin(Op::Add, gen_e(t, sc, Ty::S, d), gen_e(t, sc, Ty::S, d)),
             3 => call(E::BuiltIn("to_string".into()), vec![gen_e(t, sc, Ty::N, d)]),
             4 => E::If(b(gen_e(t, sc, Ty::B, d)), b(gen_e(t, sc, Ty::S, d)), b(gen_e(t, sc, Ty::S, d))),
